@@ -325,18 +325,37 @@ pub fn c30_reenter_case(src: &mut Src, obs: &mut Obs) -> CaseResult {
         peer.send(&m);
         calls.push(m);
     }
-    let oc = sched.run(&mut || sch.next(), 600_000, &mut |_| {
+    // now and then somebody outside the handlers looks the interface up while the calls are served
+    let lookup = if src.chance(100) {
+        let c = conn.clone();
+        Some(sched.spawn("lookup", async move {
+            if seq {
+                let _ = c.object_server().interface::<_, inline::Reenter>("/c30").await;
+            } else {
+                let _ = c.object_server().interface::<_, spawned::Reenter>("/c30").await;
+            }
+        }))
+    } else {
+        None
+    };
+    let oc = sched.run(&mut || sch.next(), 600_000, &mut |s| {
         peer.pump();
-        calls.iter().all(|c| peer.out.iter().any(|r| r.get(msg::F_REPLY_SERIAL) == Some(&RVal::U(c.serial))))
+        calls.iter().all(|c| peer.out.iter().any(|r| r.get(msg::F_REPLY_SERIAL) == Some(&RVal::U(c.serial)))) && lookup.map(|l| s.done(l)).unwrap_or(true)
     });
-    let answered: Vec<bool> = calls.iter().map(|c| peer.out.iter().any(|r| r.get(msg::F_REPLY_SERIAL) == Some(&RVal::U(c.serial)))).collect();
+    if lookup.is_some() {
+        kinds.push("(interface() from outside)");
+    }
+    let mut answered: Vec<bool> = calls.iter().map(|c| peer.out.iter().any(|r| r.get(msg::F_REPLY_SERIAL) == Some(&RVal::U(c.serial)))).collect();
+    if let Some(l) = lookup {
+        answered.push(sched.done(l));
+    }
     let describe = || format!("{} interface, calls {kinds:?}, answered {answered:?}", if seq { "spawn=false" } else { "spawn=true" });
     if oc != Outcome::Goal {
         let stuck: Vec<&str> = kinds.iter().zip(&answered).filter(|(_, a)| !**a).map(|(k, _)| *k).collect();
         let key = if stuck.iter().all(|k| k.contains("Probe") || k.contains("Knob") || *k == "GetAll") || stuck.iter().any(|k| k.contains("Probe") || k.contains("Knob")) { Some("objsrv-property-handler-reentering-server-deadlocks".to_string()) } else { None };
         return Err(Failure { key, msg: format!("handlers that use the object server never answered {stuck:?} ({oc:?}: nothing left to run); {}", describe()) });
     }
-    for (c, k) in calls.iter().zip(&kinds) {
+    for (c, k) in calls.iter().zip(kinds.iter()) {
         let r = peer.out.iter().find(|r| r.get(msg::F_REPLY_SERIAL) == Some(&RVal::U(c.serial))).unwrap();
         // (once the object removes itself, calls handled after that are answered with an error)
         let closes = kinds.iter().any(|k| k.starts_with("Close"));
@@ -345,7 +364,7 @@ pub fn c30_reenter_case(src: &mut Src, obs: &mut Obs) -> CaseResult {
         }
     }
     obs.label(if seq { "spawn=false" } else { "spawn=true" });
-    for k in ["Introspect", "AddMutLater", "GetManagedObjects"] {
+    for k in ["Introspect", "AddMutLater", "GetManagedObjects", "(interface() from outside)"] {
         if kinds.contains(&k) {
             obs.label(k);
         }
